@@ -175,7 +175,10 @@ fn make_failing(rng: &mut Rng, spec: &Spec, kind: &str, chain: &[(u64, bool)]) -
             // prefer an outer open master (looks plausible) when there is one
             let outer: Vec<u64> = ids.iter().rev().skip(1).copied().filter(|m| Some(*m) != innermost).collect();
             let id = if !outer.is_empty() && rng.chance(1, 2) { *rng.pick(&outer) } else { *rng.pick(&c) };
-            Some(vec![WCall::Write(Item::End(id), SizeOpt::Default)])
+            // an End may carry a size-width option like any other item (today's writer ignores it there); whatever a
+            // writer makes of it, a rejected End must leave nothing of it behind
+            let opt = if rng.chance(1, 3) { SizeOpt::Width(rng.urange(1, 8)) } else { SizeOpt::Default };
+            Some(vec![WCall::Write(Item::End(id), opt)])
         }
         "full-invalid-child" => {
             let c: Vec<&&Elem> = allowed.iter().filter(|e| e.ty == Ty::Master).collect();
